@@ -11,9 +11,9 @@ import (
 	"gitlab.com/yawning/obfs4.git/transports"
 
 	"verifsim/harness"
-	"verifsim/simnet"
 	"verifsim/ref/obfs4ref"
 	"verifsim/sim"
+	"verifsim/simnet"
 )
 
 func init() { register(&harness.Prop{ID: "C02", Run: runC02}) }
